@@ -2,7 +2,7 @@
 # tools/verify_seed.sh <ID> <m1|m2>  — independent confirmation of a seeded change in the agent's scratch worktree:
 # demo fails with the change, passes without it, and the whole unedited suite passes with the change.
 ID=$1; M=$2; WT=${WT_BASE:-/tmp/wt}/$ID; OUT=${OUT_BASE:-/tmp/wt/out}/$ID/$M; LOG=$OUT/verify.log
-export CARGO_PROFILE_DEV_DEBUG=0 CARGO_PROFILE_TEST_DEBUG=0
+[ -n "$VS_DEFAULT_PROFILE" ] || export CARGO_PROFILE_DEV_DEBUG=0 CARGO_PROFILE_TEST_DEBUG=0
 cd $WT || exit 2
 git checkout -q -- . ; rm -f tests/demo_test.rs
 : > $LOG
